@@ -44,11 +44,34 @@ def run(ctx):
         sfc, mbs = [(1000, 1000), (16, 30), (0, 8), (1000, 30)][(t // 2) % 4]   # all small and queued together / some / none
         opts = {"meph": ctx.rng.choice([2, 3, 100000]), "mbs": mbs, "sfc": sfc,
                 "mutate": [{"after": after, "path": victim, "len": newlen}]}
+        if newlen == 0 and sfc == 1000 and mbs == 1000:
+            opts["meph"] = 100000          # the emptied file is recorded at once while the earlier small files are still queued
+            if t % 4 == 0:
+                opts["mutate"][0]["after"] = "/" + names_[names_.index(victim) - 1]
         steps = [{"op": "init"}, {"op": "mktree", "path": "src", "tree": tree}, {"op": "snap", "path": "src"}, {"op": "walk"},
                  {"op": "backup", "opts": opts}, {"op": "arch"}]
         marks = [{"kind": "init"}, {"kind": "mktree", "tree": tree}, {"kind": "snap"}, {"kind": "walk"},
                  {"kind": "backup", "plan": None, "tree": tree, "snap_at": 2}, {"kind": "arch"}]
         cases.append({"id": f"m{t}", "steps": steps, "marks": marks, "mutating": True})
+    # the removal of the NEWEST version stopped part-way (its head, tail and first hunks are gone, later hunks are still
+    # there), then a backup: what that backup writes must be a well-formed version of its own
+    for t in range(2 if quick else 12):
+        ta = {"k": "d", "mode": 0o755, "mtime": 10**18, "c": {f"f{i}": {"k": "f", "data": gen.rand_bytes(ctx.rng, 4).hex(), "mode": 0o644, "mtime": 10**18 + i}
+                                                              for i in range(ctx.rng.choice([7, 9, 11]))}}
+        tb, _ = gen.mutate_tree(ctx.rng, ta)
+        o_ = {"meph": ctx.rng.choice([2, 3, 4]), "mbs": 64, "sfc": ctx.rng.choice([0, 16])}
+        gone = ["b0001/BANDHEAD", "b0001/BANDTAIL", "b0001/i/00000/000000000"] + (["b0001/i/00000/000000001"] if t % 2 else [])
+        steps = [{"op": "init"}, {"op": "mktree", "path": "src", "tree": ta}, {"op": "backup", "opts": o_},
+                 {"op": "mktree", "path": "src", "tree": tb}, {"op": "backup", "opts": o_}]
+        marks = [{"kind": "init"}, {"kind": "mktree", "tree": ta}, {"kind": "backup", "plan": None, "tree": ta, "snap_at": 1},
+                 {"kind": "mktree", "tree": tb}, {"kind": "backup", "plan": None, "tree": tb, "snap_at": 3}]
+        for g_ in gone:
+            steps.append({"op": "damage", "file": g_, "kind": "delete"})
+            marks.append({"kind": "damage"})
+        tc = {"k": "d", "mode": 0o755, "mtime": 10**18, "c": {"f0": dict(ta["c"]["f0"], mtime=10**18 + 500)}}     # fits one hunk
+        steps += [{"op": "mktree", "path": "src", "tree": tc}, {"op": "backup", "opts": o_}, {"op": "arch"}]
+        marks += [{"kind": "mktree", "tree": tc}, {"kind": "backup", "plan": None, "tree": tc, "snap_at": len(steps) - 3}, {"kind": "arch"}]
+        cases.append({"id": f"pd{t}", "steps": steps, "marks": marks, "oracle_only": True})
     # a version with more index hunks than fit one index sub-directory (10000): the numbering carries on into i/00001/
     big = {"k": "d", "mode": 0o755, "mtime": 10**18, "c": {f"e{i:05d}": {"k": "f", "data": "", "mode": 0o644, "mtime": 10**18} for i in range(10040)}}
     steps = [{"op": "init"}, {"op": "mktree", "path": "src", "tree": big}, {"op": "backup", "opts": {"meph": 1, "mbs": 64, "sfc": 0}}, {"op": "arch"}]
@@ -72,6 +95,10 @@ def run(ctx):
                 # a killed write may leave the newest band's last file empty: legal leftover
                 probs = [p for p in scen.conformance_problems(dec, rs["arch"]) if not p.endswith(": empty") or True]
                 probs = [p for p in probs if not (p.endswith(": empty") and "hunk" in p)]
+                if c["id"].startswith("pd"):
+                    # what a stopped removal left behind (a directory without a head) is not a version anyone wrote
+                    headless = {"b%04d" % b_ for b_, bd in dec["bands"].items() if bd.get("head") is None}
+                    probs = [p for p in probs if p.split(":")[0] not in headless]
                 if probs:
                     ctx.oracle_fail("format/" + ("order" if "sort after" in probs[0] else "nonconforming"), f"after step {i} the independent reader finds: {probs[0]}",
                                     {"steps": c["steps"][:i + 1]})
